@@ -1,3 +1,5 @@
+import Secp.Proofs.DriversAdaptor
+import Secp.Proofs.DriversChild
 import Secp.Proofs.Bip32
 import Secp.Props.C03
 import Secp.Proofs.Slices
@@ -73,5 +75,38 @@ theorem neuter_commutes_unconditional (O : Oracles) (k c : ExtKey) (i il : Nat) 
     `contracts_justified`) this is what makes the value-level model above faithful to the limb code. -/
 theorem bip32_field_arithmetic_exact :
     Secp.Proofs.Slices.entriesOK ["github.com/ModChain/secp256k1/ecckd.ExtendedKey.ChildWithIL", "github.com/ModChain/secp256k1/ecckd.asFV"] = true := by decide +kernel
+
+/-! ### Regenerated drivers (tools/gotr pass T8)
+
+`Secp.Gen.Drivers` is REGENERATED from /repo on every check run: the Go functions below translated
+statement by statement into Lean terms over the value-level primitives.  The theorems say the
+regenerated definitions EQUAL the hand-written models the theorems above are about. -/
+
+/-- an extended key as the tuple the regenerated code works on -/
+abbrev tup := Secp.Proofs.DriversChild.tup
+
+/-- `ExtendedKey.ChildWithIL` (ecckd/extended.go) regenerated = `childWithIL`: for every parent key (whatever its
+    key-data and chain-code lengths), every index below 2^32 and depth below 256 (the ranges of the Go types), and any
+    hash oracles whose RIPEMD160∘SHA256 output has at least the 4 bytes the fingerprint takes -/
+theorem childWithIL_regenerated (O : Oracles) (e : ExtKey) (i : Nat)
+    (hd : e.depth < 256) (hi : i < 2^32) (hfp : 4 ≤ (O.hash160 e.pubKeyBytes).length) :
+    Secp.Gen.Drivers.childWithILGen O (tup e) i =
+      (match childWithIL O e i with
+       | .ok (il, c) => DR.ok (il, tup c)
+       | .error err => DR.err err) :=
+  Secp.Proofs.DriversChild.childWithIL_regenerated
+    Secp.Proofs.DriversAdaptor.scalarBaseMult_regenerated
+    Secp.Proofs.DriversAdaptor.add_regenerated
+    Secp.Proofs.DriversAdaptor.pubKeyX_regenerated
+    Secp.Proofs.DriversAdaptor.pubKeyY_regenerated O e i hd hi hfp
+
+/-- `pubKeyBytes` regenerated -/
+theorem pubKeyBytes_regenerated (e : ExtKey) : Secp.Gen.Drivers.pubKeyBytes (tup e) = e.pubKeyBytes :=
+  Secp.Proofs.DriversChild.pubKeyBytes_regenerated Secp.Proofs.DriversAdaptor.scalarBaseMult_regenerated e
+
+/-- `serializeCompressedEcdsa` regenerated -/
+theorem serializeCompressedEcdsa_regenerated (x y : Nat) :
+    Secp.Gen.Drivers.serializeCompressedEcdsa ((), x, y) = serCompressedXY (x, y) :=
+  Secp.Proofs.DriversChild.serializeCompressedEcdsa_regenerated x y
 
 end Secp.Props.C12
